@@ -251,6 +251,23 @@ func init() {
 		body := []sitem{{Kind: "probe", Name: "a"}, {Kind: "probe", Name: "v"}, {Kind: "let", Name: "a", Val: 7}, {Kind: "let", Name: "b", Val: 8}, {Kind: "set", Name: "v", Val: 9}, {Kind: "probe", Name: "a"}, {Kind: "probe", Name: "b"}, {Kind: "probe", Name: "v"}}
 		tail := []sitem{{Kind: "probe", Name: "a"}, {Kind: "probe", Name: "b"}, {Kind: "probe", Name: "v"}}
 		kinds := []string{"for", "fn", "partial", "content", "blkctx", "defblk", "forit", "fn0"}
+		// one block-helper call site evaluated several times under DIFFERENT scopes (the body of a function
+		// called twice, the inner one of two nested loops): the block sees the scope of THIS evaluation
+		for _, t := range [][2]string{
+			{`<% let f = fn(x) { %><%= contentOf("nothing", {y: "d"}) { %><%= x %><%= y %><% } %><% } %><%= f("a") %>|<%= f("b") %>|<%= f("c") %>`, "ad|bd|cd"},
+			{`<%= for (a) in ["a", "b"] { %><%= for (i) in [1, 2] { %>[<%= blkctx({w: i}) { %><%= a %><%= i %>-<%= w %><% } %>]<% } %><% } %>`, "[a1-1][a2-2][b1-1][b2-2]"},
+			{`<% let g = fn(x) { %><%= blk() { %><%= x %><% } %><% } %><%= g(1) %><%= g(2) %><%= g(3) %>`, "[1][2][3]"},
+			{`<% let h = fn(x) { let loc = x + "!" %><%= blkctx({w: x}) { %><%= loc %><%= w %><% } %><% } %><%= h("p") %>|<%= h("q") %>`, "p!p|q!q"},
+			{`<%= for (a) in ["a", "b"] { %><% let inner = a + a %><%= for (i) in [1] { %><%= blk2() { %><%= inner %><% } %><% } %>;<% } %>`, "aa|aa;bb|bb;"},
+			{`<% let k = fn(x) { %><% contentFor("kf") { %><%= x %><% } %><%= contentOf("kf") %><% } %><%= k("1") %>|<%= k("2") %>`, "1|2"},
+		} {
+			c := RCase{Tmpl: t[0], Binds: []Bind{{"blkctx", vGo(105)}, {"blk", vGo(103)}, {"blk2", vGo(104)}}}
+			o := e.addRenderCase("call-site-under-different-scopes", c)
+			e.Distinct(t[0])
+			if o.Class != "OK" || o.Out != t[1] {
+				e.Violate("c09-scope", fmt.Sprintf("%s rendered %q (%s %s), want %q", t[0], o.Out, o.Class, firstLine(o.Msg), t[1]), map[string]interface{}{"case": c, "observed": o})
+			}
+		}
 		// the arguments of a call are evaluated in the CALLER's scope, all of them, before any parameter
 		// is bound: an earlier parameter never hides a caller's variable of the same name from a later argument
 		for _, t := range [][2]string{
